@@ -42,6 +42,7 @@ enum { EX_WRITES, EX_REFUSED };
 typedef struct {
     int op, type, fmt;
     void * buf;            /* exact-size heap input (array / block / data chunk), may be NULL for zero-length data */
+    void * base;           /* allocation that buf points into when the array is a window of a longer record (else NULL) */
     size_t n;              /* ARR: elements; BLOCK/DATA: bytes; HDR: announced length */
     int32_t ival;
     int expect, soft;      /* soft: the statement does not determine the bytes of this call (counted, not asserted) */
@@ -62,7 +63,7 @@ static uint64_t m_remaining;
 
 static void s_begin(void) {
     int i;
-    for (i = 0; i < g_nops; i++) free(g_ops[i].buf);
+    for (i = 0; i < g_nops; i++) { if (g_ops[i].base) free(g_ops[i].base); else free(g_ops[i].buf); g_ops[i].base = NULL; }
     memset(g_ops, 0, sizeof g_ops);
     g_nops = 0; vh_buf_reset(&g_exp);
     m_items = 0; m_open = 0; m_soft = 0; m_refusals = 0; m_remaining = 0; m_prev_complete = 0;
@@ -138,7 +139,12 @@ static void s_array(int type, int fmt, size_t count, vh_rng_t * rng) {
     int mode = (int) vh_below(rng, 4); /* 0 biased, 1 random, 2 counting pattern, 3 biased */
     uint64_t h = vh_hash_u64((uint64_t) (type * 4 + fmt), VH_HASH_INIT);
     o->type = type; o->fmt = fmt; o->n = count;
-    o->buf = malloc(count * (size_t) sz); /* exact size, malloc(0) for the empty array */
+    /* the caller's array may be a window into a longer record: it then starts at an element offset, i.e. at an address that is
+     * aligned for the element type only (address % 4 == 2 for 16-bit items, % 8 == 4 for 32-bit items); the block must not depend on it.
+     * The window still ends exactly at the end of the allocation, so over-reads trap. */
+    { size_t lead = (sz < 8 && vh_below(rng, 3) == 0) ? 1 + vh_below(rng, (uint32_t) (8 / sz - 1)) : 0;
+      if (lead) { o->base = malloc((count + lead) * (size_t) sz); memset(o->base, 0x5A, lead * (size_t) sz); o->buf = (char *) o->base + lead * (size_t) sz; vh_count("array.window_at_element_offset", 1); }
+      else { o->base = NULL; o->buf = malloc(count * (size_t) sz); } /* exact size, malloc(0) for the empty array */ }
     if (fmt == SCPI_FORMAT_ASCII) { /* other properties: smoke only */
         for (i = 0; i < count; i++) put_elem(o->buf, type, i, gen_bits(type, rng, i, mode));
         o->soft = 1; m_soft = 1; m_items += (int) count;
@@ -586,6 +592,7 @@ static void p6_run(uint64_t idx, vh_rng_t * rng) {
 }
 
 int main(int argc, char ** argv) {
+    vh_require("array.window_at_element_offset");
     static const vh_phase_t phases[] = {
         { "arrays_every_type_format_length", p0_count, p0_run },
         { "arrays_random", p1_count, p1_run },
